@@ -168,6 +168,8 @@ func valuePool() []*variants.Variant {
 		variants.VariantFromString("1_000"), variants.VariantFromString(" 7"), variants.VariantFromString("0o7"), variants.VariantFromString("9223372036854775808"),
 		// one half (a square root written as a power), of both float types
 		variants.VariantFromDouble(0.5), variants.VariantFromFloat(0.5),
+		// strings a converter may or may not take for a boolean
+		variants.VariantFromString("yes"), variants.VariantFromString("Y"), variants.VariantFromString("tRuE"), variants.VariantFromString("no"), variants.VariantFromString("T"), variants.VariantFromString("False"), variants.VariantFromString("1"), variants.VariantFromString("0"),
 		// long digit strings
 		variants.VariantFromString("12345678901234567890"), variants.VariantFromString("00000000000000000001"), variants.VariantFromString("-9223372036854775808"), variants.VariantFromString("1234567890123456789"),
 	}
